@@ -14,7 +14,8 @@ SPEC = dict(
           "unrelated pair is added is decided over Q (known finding D11, replayed against the real solver). Metamorphic runs on the "
           "real pipeline: every group of A inside A+B equals the same group of A alone (1e-9) for B placed 30 A to 9000 A away, both "
           "file orders, different and equal chain ids, a structure with its own copy; the real solver is driven with unions of "
-          "independent tie-prone systems.",
+          "independent tie-prone systems. "
+          "The whole scoring phase is modelled as well (Model/Scoring.lean: calculate_pka of one conformation with everything it calls - desolvation, backbone and ion determinants, backbone reorganisation, the pair loop with angle factors, exception rules and both families of pair rules, the iterative scheme, totals, coupling penalties and the removal of determinants towards penalised groups; parameters regenerated from /repo and read back from the compiled driver); its Float instance is compared with the real calculate_pka on every distinct conformation this check runs - counts, partners and order exactly, numbers to 1e-9 (they are bit-identical on the unchanged tree). On that model: every term that couples two parts vanishes beyond range (bbDet_far via smallest_ge, ionDet_far, pairStep_far, desolvLoop_append_far, energyLocal_append_far), and single_group_phases_extend: in a system extended by atoms and groups beyond range R (FarExtension: tables and environment agree on the old indices, the old part is closed under interaction atoms, bonds and couplings, everything new is at least R from everything old, no cut-off exceeds R) the buried count, both desolvation terms, the backbone and the ion determinants of every old group are unchanged. The solver family now also puts clusters that never converge next to 48-120 further iterative groups; a difference counts as the known finding D11 only when the cluster alone passed the convergence test.",
     note="Partial: the locality of the whole pipeline is established phase by phase on the kernels and by metamorphic runs; the "
          "iteration-count coupling of the solver (D11) is a genuine defect that is recorded, not repaired (changing the stopping rule "
          "changes predictions for a whole class of inputs).",
